@@ -276,8 +276,43 @@ func prepassC09(c *core.Ctx) int {
 				return cases
 			}
 		}
+		// longer strings, structured: a codec-specific head, every value of the next 16 bits (where
+		// the headers keep their size, count and flag fields), and tails of 1-5 bytes
+		for _, head := range c09Heads(kind) {
+			buf := make([]byte, 0, len(head)+7)
+			for i := 0; i < 1<<16; i++ {
+				for tl := 1; tl <= 5; tl++ {
+					buf = append(buf[:0], head...)
+					buf = append(buf, byte(i>>8), byte(i))
+					for j := 0; j < tl; j++ {
+						buf = append(buf, []byte{0x00, 0xFF, 0x01, 0x80, 0x7F}[(i+j+tl)%5])
+					}
+					feed(buf)
+				}
+			}
+			if len(c.Viol) > 8 {
+				return cases
+			}
+		}
 	}
 	return cases
+}
+
+// c09Heads lists the payload heads after which the structured pre-pass sweeps 16 bits.
+func c09Heads(kind int) [][]byte {
+	switch kind {
+	case kH264, kH264AVC:
+		return [][]byte{{24}, {28}, {25}, {29}, {0x7C}, {24, 0, 1, 0x65}}
+	case kH265, kH265DONL:
+		return [][]byte{{48 << 1, 1}, {49 << 1, 1}, {50 << 1, 1}, {50<<1 | 1, 0xFF}, {48 << 1, 1, 0, 1, 0x40}}
+	case kVP8:
+		return [][]byte{{0x90}, {0x80}, {0xFF}}
+	case kVP9, kVP9Flex:
+		return [][]byte{{0x80}, {0xC0}, {0xA0}, {0x90}, {0x82}, {0xFA}, {0xBA}, {0x02}}
+	case kAV1Dep, kAV1Pkt:
+		return [][]byte{{0x00}, {0x10}, {0x20}, {0x30}, {0x80}, {0x40}, {0xC0}}
+	}
+	return nil
 }
 
 // c09foreign returns, for one frame in three of the kinds that have an independent writer,
@@ -294,7 +329,7 @@ func c09foreign(t *core.Tape, kind, mtu int) [][]byte {
 	}
 	switch kind {
 	case kH265, kH265DONL:
-		ps, _ := foreignH265(t, genH265Units(t, mtu), kind == kH265DONL)
+		ps, _ := foreignH265x(t, genH265Units(t, mtu), kind == kH265DONL, true)
 		return ps
 	case kH264, kH264AVC:
 		st := 0
